@@ -33,6 +33,7 @@ type seqGen struct {
 	withRef  bool
 	bounded  bool
 	weighted bool
+	giant    bool
 	max      int
 	deferred bool
 	clock    int64
@@ -476,6 +477,11 @@ func genSeqScript(seed uint64, profile string) []string {
 		} else {
 			g.weighted = true
 			g.max = 2 + r.intn(12)
+			if profile == "bound" && r.chance(0.2) {
+				// weights and maxima around the limits of the number types (weights are uint32, totals uint64)
+				g.giant = true
+				g.max = pick(r, []int{1 << 31, 1<<32 - 1, 1 << 32, 1<<32 + 5, 3 << 30, 1 << 33, 5 << 30})
+			}
 			bound = fmt.Sprintf("weight:%d", g.max)
 		}
 	}
@@ -536,7 +542,14 @@ func genSeqScript(seed uint64, profile string) []string {
 	if g.weighted {
 		var ws []string
 		for i := 0; i < 8; i++ {
-			ws = append(ws, fmt.Sprint(pick(r, []int{0, 1, 1, 2, 2, 3, g.max - 1, g.max, g.max + 1})))
+			w := pick(r, []int{0, 1, 1, 2, 2, 3, g.max - 1, g.max, g.max + 1})
+			if g.giant {
+				w = pick(r, []int{0, 1, 1 << 30, 1 << 30, 1<<31 - 1, 1 << 31, 1<<31 + 1, 1<<32 - 1, 3 << 29, g.max - 1, g.max, g.max + 1})
+				if w > math.MaxUint32 {
+					w = math.MaxUint32
+				}
+			}
+			ws = append(ws, fmt.Sprint(w))
 		}
 		g.add("wt %s", strings.Join(ws, " "))
 	}
